@@ -424,6 +424,60 @@ pub fn served_nodes(
     };
     message.get_closer_nodes().map(|nodes| nodes.to_vec())
 }
+/// A bare KRPC socket - the in-flight table and the attribution of replies to requests - driven call by call, without an actor
+/// around it: the harness decides when a request is sent, what arrives, and how much time passes in between.
+pub struct SocketUnderTest {
+    sock: crate::actor::socket::KrpcSocket,
+    ep: u64,
+    addr: SocketAddrV4,
+}
+impl SocketUnderTest {
+    pub fn new(ip: Ipv4Addr) -> Self {
+        sim_inline(true);
+        sim_next_ip(ip);
+        let sock = crate::actor::socket::KrpcSocket::new(&crate::actor::config::Config {
+            port: Some(6881),
+            ..Default::default()
+        })
+        .expect("bind");
+        let (ep, addr) = sim_last_bound();
+        SocketUnderTest { sock, ep, addr }
+    }
+    pub fn addr(&self) -> SocketAddrV4 {
+        self.addr
+    }
+    /// Send a ping request; returns its transaction id (the datagram is in the outbox).
+    pub fn request(&mut self, to: SocketAddrV4) -> u32 {
+        self.sock.request(
+            to,
+            RequestSpecific {
+                requester_id: Id::random(),
+                request_type: RequestTypeSpecific::Ping,
+            },
+        )
+    }
+    /// One `recv_from` with the given datagram (or none: the read times out); what the socket hands on, if anything:
+    /// (transaction id, sender, is it an error message).
+    pub fn recv(&mut self, input: Option<(Vec<u8>, SocketAddrV4)>) -> Option<(u32, SocketAddrV4, bool)> {
+        sim_set_input(
+            self.ep,
+            match input {
+                Some((bytes, from)) => Grant::Datagram(bytes, from),
+                None => Grant::Timeout,
+            },
+        );
+        self.sock
+            .recv_from()
+            .map(|(m, from)| (m.transaction_id, from, matches!(m.message_type, MessageType::Error(_))))
+    }
+    pub fn inflight(&self, tid: u32) -> bool {
+        self.sock.inflight(&tid)
+    }
+    pub fn snapshot(&self) -> InflightSnap {
+        self.sock.verif_snapshot()
+    }
+}
+
 /// A storing node's request handler that lives across calls (whatever it remembers from one request to the next is part of
 /// what it serves).
 pub struct LongLivedServer(crate::core::server::Server);
